@@ -221,7 +221,8 @@ def tlc(module, cfg=None, run_dir=None, workers=8, timeout=900, env=None, xss="5
     shutil.rmtree(meta, ignore_errors=True)
     r = TlcResult()
     r.rc, r.out, r.wall, r.module = rc, out, dt, module
-    for ln in out.splitlines():
+    lines = out.splitlines()
+    for idx, ln in enumerate(lines):
         m = re.match(r"(\d+) states generated, (\d+) distinct states found", ln)
         if m:
             r.generated, r.distinct = int(m.group(1)), int(m.group(2))
@@ -235,7 +236,17 @@ def tlc(module, cfg=None, run_dir=None, workers=8, timeout=900, env=None, xss="5
             od, og = r.coverage.get(a, (0, 0))
             r.coverage[a] = (max(od, d), max(og, g))
         if ln.startswith("<<"):
-            r.prints.append(ln)
+            # TLC's pretty-printer wraps a tuple that does not fit 80 columns over several lines
+            # (<< "TAG",\n   "long signature",\n   30 >>): join it back, or a long signature is silently lost
+            buf, k = ln, idx
+            while buf.count("<<") > buf.count(">>") and k + 1 < len(lines) and k - idx < 200:
+                k += 1
+                buf += " " + lines[k].strip()
+            if buf.count("<<") != buf.count(">>"):
+                raise ToolError("unbalanced tuple in TLC output: " + buf[:300])
+            buf = re.sub(r'<<\s+', '<<', buf)
+            buf = re.sub(r'\s+>>', '>>', buf)
+            r.prints.append(buf)
         if ln.startswith('"REPLAY '):
             try:
                 r.replays.append(json.loads(json.loads(ln)[7:]))
@@ -351,6 +362,8 @@ class Check:
                               "--tier", self.tier] + list(extra_args), timeout=timeout, env=env, watchdog=420 if self.tier == "quick" else None)
         except HangError as h:
             return self.hang(module, h)
+        except ToolError as t:
+            return self.after_violation(module, t)
         return self.absorb(res, "replay " + module, dt, {"module": module, "mode": "replay", "vectors": vectors, "args": list(extra_args)})
 
     def record(self, module, extra_args=(), out_name=None, timeout=1800, env=None):
@@ -363,11 +376,25 @@ class Check:
             self.hang(module, h)
             open(tr, "w").close()
             return tr, 0
+        except ToolError as t:
+            self.after_violation(module, t)
+            open(tr, "w").close()
+            return tr, 0
         n = sum(1 for _ in open(tr)) if os.path.exists(tr) else 0
         log("  [T] %s: recorded %d events from the real code (%.1fs)" % (module, n, dt))
         if os.path.exists(res):
             self.absorb(res, "record " + module, dt, {"module": module, "mode": "record", "args": list(extra_args)})
         return tr, n
+
+    def after_violation(self, module, t):
+        """The driver died in a later step.  If an earlier step of this run already established a violation (with its replay
+        file), that verdict stands and the crash is noted; otherwise it is a tool error."""
+        if not any(m.get("kind") == "violation" for m in self.mismatches):
+            raise t
+        self.mismatches.append({"t": "mismatch", "kind": "drift", "sig": "%s/driver_stopped_after_violation" % self.pid,
+                                "detail": "driver step %s failed after a violation had been established: %s" % (module, str(t)[-300:].replace("\n", " ")), "case": None})
+        log("  [%s] driver failed after a violation was established; verdict stands" % module)
+        return 0
 
     def hang(self, module, h):
         """The code under test did not return on one case: a violation of every totality/termination clause."""
@@ -409,7 +436,7 @@ class Check:
         kw.setdefault("xss", "1g")
         if not batch:
             kw.setdefault("deque", True)
-        if os.path.getsize(trace) == 0 and any(m.get("sig", "").endswith("/hang") for m in self.mismatches):
+        if os.path.getsize(trace) == 0 and any(m.get("sig", "").endswith(("/hang", "/memory_runaway", "/driver_stopped_after_violation")) for m in self.mismatches):
             return None
         r = tlc(module, cfg, run_dir=self.run_dir, env={"TRACE": trace}, **kw)
         require_model_ok(r, cfg or module)
